@@ -47,7 +47,7 @@ def eanSum (ds : List Nat) : Nat := (eanSumAux ds).1
 
 /-- Go's `(1000 - sum) % 10` (truncated remainder: negative when `sum > 1000`) -/
 def goCheckOf (sum : Nat) : Int :=
-  if sum ≤ 1000 then Int.ofNat ((1000 - sum) % 10) else - Int.ofNat ((sum - 1000) % 10)
+  if sum ≤ 1000 then (((1000 - sum) % 10 : Nat) : Int) else - (((sum - 1000) % 10 : Nat) : Int)
 
 /-- the check digit of a digit-value list -/
 def eanCheckDigit (ds : List Nat) : Int := goCheckOf (eanSum ds)
@@ -65,14 +65,14 @@ def checkStandardB (s : List Nat) : Res Bool :=
   | none => .ok false
   | some last =>
     match eanChecksumB s.dropLast with
-    | .ok sum => .ok (sum == Int.ofNat (byteMinus0 last))
+    | .ok sum => .ok (sum == ((byteMinus0 last : Nat) : Int))
     | .error e => .error e
 
 /-- digit-level validity of a complete number (body ++ [check]) -/
 def eanValid (ds : List Nat) : Bool :=
   match ds.getLast? with
   | none => false
-  | some c => eanCheckDigit ds.dropLast == Int.ofNat c
+  | some c => eanCheckDigit ds.dropLast == ((c : Nat) : Int)
 
 /-! ## UPC-E ↔ UPC-A -/
 
